@@ -182,7 +182,7 @@ def probe_timing(ctx):
 def run(ctx):
     quick = ctx.tier == "quick"
     probe_timing(ctx)
-    pool = stories.generated_pool(ctx, "externals", 50 if quick else 1500)
+    pool = stories.probe_pool(ctx, "c12") + stories.generated_pool(ctx, "externals", 50 if quick else 1500)
     jobs = [(s, ctx.seed * 3571 + si * 23 + w, ctx.scratch) for si, s in enumerate(pool) for w in range(1 if quick else 3)]
     ctx.programs = len(pool)
     with ProcessPoolExecutor(max_workers=14) as ex:
